@@ -264,10 +264,51 @@ fn d72() -> Result<(), String> {
     expect_lines(run_batch(R3, "SELECT VARIANCE(v), STDDEV(v) FROM t", &";1000000007;\n".repeat(7)), &["variance0: 0.00, stddev1: 0.00"])?;
     expect_lines(run_batch(R3, "SELECT VARIANCE(v), STDDEV(v) FROM t", &";300000007;\n".repeat(3)), &["variance0: 0.00, stddev1: 0.00"])
 }
+// D76 (C04, OPEN): for REAL arguments VARIANCE / STDDEV are the one-pass formula (Σx² − (Σx)²/n)/n in REAL arithmetic (clamped at 0
+// since D72): with a large mean and a small spread the subtraction cancels. 100000001.0, 100000002.0, 100000003.0 give VARIANCE 0.0
+// and STDDEV 0.0 (exact 2/3 and 0.816…); 1000000.1, 1000000.2, 1000000.3 give 0.0068359375 (exact 0.006666…: 2.5 % off).
+// The property holds when both cells are within a relative 1e-9 of the exact variance (computed in integers) and its square root;
+// the documented deviation is EXACTLY the one-pass formula's value, bit for bit. Lean: `Props/C04Variance.lean`
+// `d76_real_variance_far_from_exact`.
+fn d76() -> Result<(), String> {
+    let mut deviations = Vec::new();
+    for texts in [["100000001.0", "100000002.0", "100000003.0"], ["1000000.1", "1000000.2", "1000000.3"]] {
+        let xs: Vec<f64> = texts.iter().map(|t| t.parse::<f64>().unwrap()).collect();
+        let lines: Vec<String> = texts.iter().map(|t| format!("{};;", t)).collect();
+        match run_engine_batch(R3, "SELECT VARIANCE(r), STDDEV(r) FROM t", &lines) {
+            RowsOutcome::Rows { rows, .. } if rows.len() == 1 && rows[0].len() == 2 => match (&rows[0][0], &rows[0][1]) {
+                (Value::Float(v), Value::Float(sd)) => match crate::c04::judge_real_variance(&xs, v.0, sd.0) {
+                    Some(Ok(())) => {}
+                    Some(Err(true)) => deviations.push(format!("{:?}: VARIANCE {:?} STDDEV {:?} (exact variance {:?})", texts, v.0, sd.0, crate::c04::exact_real_variance(&xs).unwrap())),
+                    _ => return Err(format!("{:?}: VARIANCE {:?} STDDEV {:?} is neither near the exact variance {:?} nor the one-pass formula's value {:?}", texts, v.0, sd.0, crate::c04::exact_real_variance(&xs), crate::c04::onepass_real_variance(&xs))),
+                },
+                other => return Err(format!("{:?}: cells {:?}", texts, other)),
+            },
+            other => return Err(format!("{:?}: {:?}", texts, other)),
+        }
+    }
+    if deviations.is_empty() { Ok(()) } else { Err(known(deviations.join("; "))) }
+}
+// D74 (C04, repaired in ae3273b): AVG over INTERVAL used chrono's `TimeDelta / i32`, which divides seconds and nanoseconds apart:
+// over 1.002 s, 0, 0 the program printed `00:00:00.333` (333 999 999 ns; the total 1 002 000 000 ns / 3 is exactly 334 000 000 ns),
+// over −2 ms, 0, 0 the cell was −666 667 ns (total / count truncated towards zero: −666 666 ns). Regression witness, at value level.
+// Lean: `Props/C04Avg.lean` `d74_avg_interval_exact`, `d74_avg_negative_interval` (same inputs, same cells).
+fn d74() -> Result<(), String> {
+    let q = "SELECT AVG(t2 - ts), COUNT(*) FROM t";
+    let rows = |deltas: &[&str]| -> Vec<String> { deltas.iter().map(|t2| format!("a;;;;~;;;2000-03-04 05:06:30;2000-03-04 05:06:{}", t2)).collect() };
+    expect_lines(run_batch(crate::c04::C04_DEF, q, &(rows(&["31.002000", "30.000000", "30.000000"]).join("\n") + "\n")), &["avg0: 00:00:00.334, count1: 3"])?;
+    for (deltas, ns) in [(["31.002000", "30.000000", "30.000000"], 334_000_000i128), (["29.998000", "30.000000", "30.000000"], -666_666)] {
+        match run_engine_batch(crate::c04::C04_DEF, q, &rows(&deltas)) {
+            RowsOutcome::Rows { rows, .. } if rows.len() == 1 && matches!(&rows[0][0], Value::Interval(x) if crate::c04::iv_ns(x) == ns) => {}
+            other => return Err(format!("AVG(t2 - ts) over the differences {:?}: expected the interval of {} ns (total / count, truncated towards zero), got {:?}", deltas, ns, other)),
+        }
+    }
+    Ok(())
+}
 // D60 (C11): GROUP BY over REAL keys 0.0 / -0.0 (equal in the value order, printed differently): the table shown after
 // the second line fed incrementally must equal the batch table over both lines
 fn d60() -> Result<(), String> {
-    // documented deviation (open): the two tables are equal once `-0.0 ↦ 0.0` is applied to every value, and differ raw
+    // documented deviation (open): the two tables are equal once `-0.0 ↦ 0.0` is applied to the key column, and differ raw
     // (follow mode shows the key `0.0`, batch mode `-0.0`); anything else — an error, another row, another cell — is not D60
     let lines: Vec<String> = vec!["0.0;;1".to_owned(), "-0.0;1;2".to_owned()];
     let q = "SELECT r, COUNT(v), PERCENTILE(w, 0.5) FROM t GROUP BY r";
@@ -277,7 +318,8 @@ fn d60() -> Result<(), String> {
     };
     let batch = match run_engine_batch(R3, q, &lines) { RowsOutcome::Rows { rows, .. } => rows, other => return Err(format!("batch run: {:?}", other)) };
     let show = |rows: &Vec<Vec<Value>>| format!("{:?}", rows);
-    let canon = |rows: &Vec<Vec<Value>>| -> Vec<Vec<Value>> { rows.iter().map(|r| r.iter().map(crate::engine_run::canon_zero_nan).collect()).collect() };
+    // … applied to the GROUP BY key column (the first select-list item) only
+    let canon = |rows: &Vec<Vec<Value>>| -> Vec<Vec<Value>> { rows.iter().map(|r| r.iter().enumerate().map(|(i, v)| if i == 0 { crate::engine_run::canon_zero_nan(v) } else { v.clone() }).collect()).collect() };
     let msg = format!("after line 2 follow mode shows {} but a batch run over both lines gives {}", show(&follow), show(&batch));
     if show(&follow) == show(&batch) { Ok(()) }
     else if show(&canon(&follow)) == show(&canon(&batch)) { Err(known(msg)) }
@@ -515,6 +557,8 @@ pub fn all() -> Vec<Witness> {
         w!("D69", &["C03"], "a condition (WHERE, HAVING, operand of AND / OR, WHEN) that is neither BOOLEAN nor NULL counts as false instead of being an error", d69),
         w!("D66", &["C02"], "a JSON number with fraction / exponent is not the nearest REAL (one unit in the last place off f64::from_str of the same text)", d66),
         w!("D72", &["C04"], "VARIANCE / STDDEV over equal values: the one-pass formula cancelled, VARIANCE was negative and STDDEV NaN (repaired)", d72),
+        w!("D76", &["C04"], "VARIANCE / STDDEV of REAL values with a large mean and a small spread: the one-pass formula cancels (0.0 for 100000001.0, 100000002.0, 100000003.0)", d76),
+        w!("D74", &["C04"], "AVG over INTERVAL divided seconds and nanoseconds apart: 1.002 s / 3 was 0.333999999 s (repaired)", d74),
         w!("D60", &["C11"], "REAL keys 0.0 / -0.0: follow mode and batch mode show different representatives of one group", d60),
         w!("D65", &["C11"], "follow mode, CSV, aggregate statement: the header was shown on the first screen only (fixed e80a2b6)", d65),
         w!("D61", &["C11"], "follow mode, aggregate over a join: a line with several partners showed one table per partner, concatenated (fixed 7277b4c)", d61),
